@@ -1917,3 +1917,256 @@ func ruleVMBytesRetained(c *Ctx, pkgs ...string) {
 	}
 	c.Floor("locals bound to VM-owned bytes", nsrc, 10)
 }
+
+// ---------------------------------------------------------------------------
+// flag-guarded-value (C09): a cursor variable that travels with a validity flag (`kv, have = list[i], true` ...
+// `have = false` when the list is exhausted) keeps its last value after the flag went false. Reading it then compares
+// against an element that was already consumed - and, where the consumed element was trimmed in place, against a key
+// that means something else. Every read of such a variable sits where the flag is known to be true: on the right
+// of `flag && ...`, in the then-branch of a condition that implies the flag (also through a local defined as
+// `flag && ...`), or after an assignment of the variable in the same block.
+func ruleFlagGuardedValue(c *Ctx, pkgs ...string) {
+	want := map[string]bool{}
+	for _, p := range pkgs {
+		want[p] = true
+	}
+	npairs := 0
+	for _, fd := range c.P.AllFuncDecls() {
+		if !want[pkgRel(fd.Pkg.Types)] || fd.Decl.Body == nil {
+			continue
+		}
+		info := fd.Pkg.TypesInfo
+		// flags: bool locals assigned both true and false
+		type fl struct {
+			trueBlocks  []*ast.BlockStmt
+			falseBlocks []*ast.BlockStmt
+		}
+		flags := map[types.Object]*fl{}
+		var blockOf func(n ast.Node) *ast.BlockStmt
+		parents := map[ast.Node]ast.Node{}
+		var stack []ast.Node
+		ast.Inspect(fd.Decl.Body, func(x ast.Node) bool {
+			if x == nil {
+				stack = stack[:len(stack)-1]
+				return true
+			}
+			if len(stack) > 0 {
+				parents[x] = stack[len(stack)-1]
+			}
+			stack = append(stack, x)
+			return true
+		})
+		blockOf = func(n ast.Node) *ast.BlockStmt {
+			for p := parents[n]; p != nil; p = parents[p] {
+				if b, ok := p.(*ast.BlockStmt); ok {
+					return b
+				}
+				if cc, ok := p.(*ast.CaseClause); ok {
+					return &ast.BlockStmt{List: cc.Body}
+				}
+				if cc, ok := p.(*ast.CommClause); ok {
+					return &ast.BlockStmt{List: cc.Body, Lbrace: cc.Pos(), Rbrace: cc.End()}
+				}
+			}
+			return nil
+		}
+		ast.Inspect(fd.Decl.Body, func(x ast.Node) bool {
+			as, ok := x.(*ast.AssignStmt)
+			if !ok || as.Tok != token.ASSIGN || len(as.Lhs) != len(as.Rhs) {
+				return true
+			}
+			for i, l := range as.Lhs {
+				id, ok := l.(*ast.Ident)
+				if !ok {
+					continue
+				}
+				v, isC := boolConst(info, as.Rhs[i])
+				if !isC {
+					continue
+				}
+				o := info.ObjectOf(id)
+				if o == nil {
+					continue
+				}
+				if flags[o] == nil {
+					flags[o] = &fl{}
+				}
+				if v {
+					flags[o].trueBlocks = append(flags[o].trueBlocks, blockOf(as))
+				} else {
+					flags[o].falseBlocks = append(flags[o].falseBlocks, blockOf(as))
+				}
+			}
+			return true
+		})
+		for fo, fi := range flags {
+			if len(fi.trueBlocks) < 2 || len(fi.falseBlocks) < 1 {
+				continue
+			}
+			// partner: a local assigned (plain `=`) in every block that sets the flag true, and in no block that sets it false
+			assignedIn := func(b *ast.BlockStmt, o types.Object) bool {
+				if b == nil {
+					return false
+				}
+				for _, st := range b.List {
+					if as, ok := st.(*ast.AssignStmt); ok {
+						for _, l := range as.Lhs {
+							if id, ok := l.(*ast.Ident); ok && info.ObjectOf(id) == o {
+								return true
+							}
+						}
+					}
+				}
+				return false
+			}
+			cands := map[types.Object]bool{}
+			if fi.trueBlocks[0] != nil {
+				for _, st := range fi.trueBlocks[0].List {
+					if as, ok := st.(*ast.AssignStmt); ok && as.Tok == token.ASSIGN {
+						for _, l := range as.Lhs {
+							if id, ok := l.(*ast.Ident); ok {
+								if o := info.ObjectOf(id); o != nil && o != fo {
+									if _, isBool := o.Type().Underlying().(*types.Basic); !isBool {
+										cands[o] = true
+									}
+								}
+							}
+						}
+					}
+				}
+			}
+			for vo := range cands {
+				okPair := true
+				for _, b := range fi.trueBlocks {
+					if !assignedIn(b, vo) {
+						okPair = false
+					}
+				}
+				for _, b := range fi.falseBlocks {
+					if assignedIn(b, vo) {
+						okPair = false
+					}
+				}
+				if !okPair {
+					continue
+				}
+				npairs++
+				nread := 0
+				// implies(cond): cond true => flag true
+				var implies func(e ast.Expr, depth int) bool
+				implies = func(e ast.Expr, depth int) bool {
+					e = ast.Unparen(e)
+					switch y := e.(type) {
+					case *ast.Ident:
+						o := info.ObjectOf(y)
+						if o == fo {
+							return true
+						}
+						if depth < 3 && o != nil {
+							// a local all of whose definitions imply the flag
+							ndef, all := 0, true
+							ast.Inspect(fd.Decl.Body, func(z ast.Node) bool {
+								switch d := z.(type) {
+								case *ast.AssignStmt:
+									for i, l := range d.Lhs {
+										if id, ok := l.(*ast.Ident); ok && info.ObjectOf(id) == o && i < len(d.Rhs) {
+											ndef++
+											if !implies(d.Rhs[i], depth+1) {
+												all = false
+											}
+										}
+									}
+								case *ast.ValueSpec:
+									for i, id := range d.Names {
+										if info.ObjectOf(id) == o && i < len(d.Values) {
+											ndef++
+											if !implies(d.Values[i], depth+1) {
+												all = false
+											}
+										}
+									}
+								}
+								return true
+							})
+							return ndef > 0 && all
+						}
+					case *ast.BinaryExpr:
+						if y.Op == token.LAND {
+							return implies(y.X, depth) || implies(y.Y, depth)
+						}
+					}
+					return false
+				}
+				// examine every read of the value
+				ast.Inspect(fd.Decl.Body, func(x ast.Node) bool {
+					id, ok := x.(*ast.Ident)
+					if !ok || info.ObjectOf(id) != vo || info.Defs[id] != nil {
+						return true
+					}
+					// skip pure assignment targets
+					if as, ok := parents[id].(*ast.AssignStmt); ok {
+						for _, l := range as.Lhs {
+							if l == ast.Expr(id) {
+								return true
+							}
+						}
+					}
+					guarded := false
+					var prev ast.Node = id
+					for p := parents[id]; p != nil && !guarded; prev, p = p, parents[p] {
+						switch y := p.(type) {
+						case *ast.BinaryExpr:
+							if y.Op == token.LAND && y.Y == prev && implies(y.X, 0) {
+								guarded = true
+							}
+						case *ast.IfStmt:
+							if y.Body == prev && implies(y.Cond, 0) {
+								guarded = true
+							}
+						case *ast.ForStmt:
+							if y.Body == prev && y.Cond != nil && implies(y.Cond, 0) {
+								guarded = true
+							}
+						case *ast.BlockStmt:
+							// an assignment of the value earlier in this block (re-validates it)
+							for _, st := range y.List {
+								if st == prev {
+									break
+								}
+								if as, ok := st.(*ast.AssignStmt); ok {
+									for _, l := range as.Lhs {
+										if lid, ok := l.(*ast.Ident); ok && info.ObjectOf(lid) == vo {
+											guarded = true
+										}
+									}
+								}
+							}
+						case *ast.CaseClause:
+							for _, st := range y.Body {
+								if st == prev {
+									break
+								}
+								if as, ok := st.(*ast.AssignStmt); ok {
+									for _, l := range as.Lhs {
+										if lid, ok := l.(*ast.Ident); ok && info.ObjectOf(lid) == vo {
+											guarded = true
+										}
+									}
+								}
+							}
+						}
+					}
+					nread++
+					key := fmt.Sprintf("flag-guarded-value.%s.%s.read#%d", FuncKey(fd.Obj), vo.Name(), nread)
+					if guarded {
+						c.OK(key, c.P.Pos(id.Pos()), fmt.Sprintf("%s is read where %s is known to be true", vo.Name(), fo.Name()))
+					} else {
+						c.Fail(key, c.P.Pos(id.Pos()), fmt.Sprintf("%s reads %s where its validity flag %s may be false: the variable then still holds the element consumed last (possibly trimmed in place), and the comparison made with it is about an element that is no longer current", FuncKey(fd.Obj), vo.Name(), fo.Name()))
+					}
+					return true
+				})
+			}
+		}
+	}
+	c.Floor("cursor/validity-flag pairs", npairs, 1)
+}
